@@ -39,6 +39,7 @@ type MWParams struct {
 	Inter           int          `json:"inter"` // intermediate read-write openers launched while writers run
 	Perm            bool         `json:"perm"`  // permute merge order at opens
 	Faults          []*FaultSpec `json:"faults,omitempty"`
+	Skew            []int64      `json:"skew,omitempty"` // per writer (script index): its wall clock runs this many ns ahead (+) or behind (-)
 	Readers         int          `json:"readers"`
 	ViewAfterCommit bool         `json:"view_after_commit,omitempty"` // record (versions, rows) after every commit
 }
@@ -49,8 +50,13 @@ func (p *MWParams) Valid() bool {
 	if p.EPN == 1 || p.EPN < 0 || p.Cache < 0 {
 		return false // entries_per_node=1 is outside the quantified range (2..4096); mast's integer layer function does not terminate for it
 	}
-	if len(p.Cols) == 0 || len(p.Scripts) == 0 || len(p.Scripts) > 6 || p.Inter > 4 || p.Readers < 1 || p.Readers > 4 {
+	if len(p.Cols) == 0 || len(p.Scripts) == 0 || len(p.Scripts) > 6 || p.Inter > 4 || p.Readers < 1 || p.Readers > 4 || len(p.Skew) > len(p.Scripts) {
 		return false
+	}
+	for _, d := range p.Skew {
+		if d < -int64(24*time.Hour) || d > int64(24*time.Hour) {
+			return false
+		}
 	}
 	seenCol := map[string]bool{"k": true}
 	for _, c := range p.Cols {
@@ -212,6 +218,11 @@ func (c *Client) SetWriteTime(ns int64) error {
 }
 
 func NewMWRun(x *Exec, w *World, p *MWParams) *MWRun {
+	for i, d := range p.Skew {
+		if d != 0 {
+			w.SetSkew(fmt.Sprintf("c%d", i), time.Duration(d))
+		}
+	}
 	m := &MWRun{P: p, W: w, X: x, Lay: TableLayout("p"), Accepted: map[int]MStmt{}, Own: map[string][]int{},
 		VerObj: map[string]*RootInfo{}, Tables: map[string]string{}}
 	prev := w.S.Observer
@@ -482,6 +493,7 @@ type MWGenOpts struct {
 	Txns                                   bool
 	Noops                                  bool
 	Advance                                bool // advance the clock between statements (version creation times differ)
+	Skew                                   bool // half of the runs give every writer its own clock offset
 }
 
 func GenMW(r *rand.Rand, o MWGenOpts) *MWParams {
@@ -597,6 +609,12 @@ func GenMW(r *rand.Rand, o MWGenOpts) *MWParams {
 	p.Inter = r.IntN(3)
 	p.Perm = r.IntN(3) != 0
 	p.Readers = 2 + r.IntN(2)
+	if o.Skew && r.IntN(2) == 0 {
+		// (drawn last, and only on request, so that the other families' programs stay what they were)
+		for range p.Scripts {
+			p.Skew = append(p.Skew, []int64{0, 1, -1, int64(time.Millisecond), -int64(time.Second), int64(time.Second), 5 * int64(time.Second), -int64(time.Hour), int64(time.Hour)}[r.IntN(9)])
+		}
+	}
 	return p
 }
 
